@@ -318,6 +318,9 @@ type XMLDOM struct {
 func ParseXMLDOM(doc []byte) (*XMLDOM, error) {
 	cooked := xml.NewDecoder(bytes.NewReader(doc))
 	raw := xml.NewDecoder(bytes.NewReader(doc))
+	// (documents that declare a non-UTF-8 encoding are only generated with pure ASCII content: identity conversion)
+	ident := func(label string, input io.Reader) (io.Reader, error) { return input, nil }
+	cooked.CharsetReader, raw.CharsetReader = ident, ident
 	res := &XMLDOM{Doc: &TNode{Kind: TDoc}}
 	stack := []*TNode{res.Doc}
 	res.HasCDATA = bytes.Contains(doc, []byte("<![CDATA["))
